@@ -33,10 +33,14 @@ class Env:
 def perform(envx, world):
     req = envx.armed
     envx.armed = None
-    target, cc, cn, source, via = req
+    target, cc, cn, source, via = req[:5]
     cc, cn = bool(cc), bool(cn)
     handle = envx.handles[target]
     envx.log.append(('request', world.vlabel, envx.frame, req))
+    if len(req) > 5 and req[5]:
+        # the running code first drops the cache of the handle it runs
+        # from (a public Handle.clear()): its world keeps running
+        envx.loop.current_world_handle.clear()
     envx.last_left = (world, world.vlabel, via)
     if via == 'switch_from':
         desper.switch(handle, clear_current=cc, clear_next=cn,
@@ -240,6 +244,7 @@ def run_case(case):
         return float(envx.frame)
 
     loop = desper.SimpleLoop(clock)
+    envx.loop = loop
     old_default = desper.default_loop
     # the loop under test is the default loop only when some request relies
     # on it; otherwise desper.default_loop stays another, idle, loop (every
@@ -305,9 +310,14 @@ def judge(case, envx):
     current = (names[0], f'{names[0]}#1')
     entered_by = {}     # request index -> entered label
     for i, req in enumerate(script):
-        target, cc, cn, source, via = req
+        target, cc, cn, source, via = req[:5]
+        pre_clear = len(req) > 5 and bool(req[5])
         feats = dict(through_switch=via != 'raise', clear_current=bool(cc),
                      clear_next=bool(cn), self_switch=target == current[0])
+        if pre_clear:
+            feats['current_handle_cleared_first'] = True
+            hits['current_handle_cleared_from_outside'] = 1
+            cached[current[0]] = None
         cname, c = current
         start = req_pos[i]
         if log[start][1] != c:
@@ -486,9 +496,17 @@ def judge(case, envx):
             'nontrivial': bool(hits)}
 
 
-def requests(names, sources=SOURCES, vias=VIAS):
-    return [(t, cc, cn, s, v) for t in names for cc in (0, 1) for cn in (0, 1)
-            for s in sources for v in vias]
+def requests(names, sources=SOURCES, vias=VIAS, pre=(0,)):
+    out = []
+    for p in pre:
+        for t in names:
+            for cc in (0, 1):
+                for cn in (0, 1):
+                    for s in sources:
+                        for v in vias:
+                            out.append((t, cc, cn, s, v, 1) if p
+                                       else (t, cc, cn, s, v))
+    return out
 
 
 def cases(tier):
@@ -500,12 +518,21 @@ def cases(tier):
                      vias=('switch_from', 'raise'))
     mid2 = requests(two, sources=('processor', 'coroutine'),
                     vias=('switch_from', 'raise'))
+    # requests issued after the running code cleared the handle it runs from
+    pre2 = requests(two, sources=('processor', 'on_update'),
+                    vias=('switch_from', 'switch_default', 'raise'),
+                    pre=(1,))
     for preload in (0, 1):
         for n in (1, 2):
             for script in itertools.product(full2, repeat=n):
                 out.append((two, preload, script))
         for script in itertools.product(lean2, repeat=3):
             out.append((two, preload, script))
+        for first in pre2:
+            out.append((two, preload, (first,)))
+            for second in lean2:
+                out.append((two, preload, (first, second)))
+                out.append((two, preload, (second, first)))
     if tier == 'thorough':
         full3 = requests(three)
         lean3 = requests(three, sources=('processor',),
@@ -534,6 +561,9 @@ def run(tier, rep):
         'happens to events dispatched into it is not constrained',
         'the `to` argument of on_switch_out is judged by its own clause '
         '(switch_out_names_entered_world)',
+        'requests with a sixth field: the running code first calls clear() '
+        'on the handle it runs from (its world keeps running); that handle '
+        'then counts as not loaded - switching to it enters a fresh instance',
         'source "release": the running world disables its dispatching, '
         'dispatches three events and enables again inside its frame; the '
         'callback of the first event asks for the switch.  The two events '
@@ -547,6 +577,7 @@ def run(tier, rep):
     rep.require_hits(clear_flag=1, self_switch=1, source_on_update=1,
                      source_coroutine=1, held_event_released_on_reentry=1,
                      switch_from_inside_a_release=1,
+                     current_handle_cleared_from_outside=1,
                      interrupted_release_resumed_on_reentry=1)
     kernel.enumerate_cases(run_case, cases(tier), rep, 'switch-scripts',
                            chunk=500,
